@@ -175,6 +175,7 @@ def run(F, res, tier):
     # the value names offered at an expression position are ModuleScope.values: a type import must not bind a constructor there
     from rules import c05 as _c05
     _c05.namespaces(F, res, rule7="X11", rule8="X11")
+    _c05.every_visited_expression_has_its_scope_recorded(F, res, rule="X15")   # completion asks for the scope of exactly the expression under the cursor
     _c05.lowering_visits_every_child(F, res, rule="X13")   # names inside a construct that is never lowered are offered nothing
     from rules import c09 as _c09x
     _c09x.declared_types_are_read_in_their_own_module(F, res, rule="X14")   # after `value.` only fields the value's type has
